@@ -496,7 +496,11 @@ use super::*;
         'expr': dict(rewrites=[D8]),
         'range_expr': dict(rewrites=[D8 + (3,)]),
         'expr_or_range_expr': dict(rewrites=[D8 + (3,)]),
-        'expr_bp': dict(rewrites=[D2], props=P5, spec=gspec(' bp >= 1,', ENS['expr_bp'][0])),
+        'expr_bp': dict(rewrites=[D2], props=P5, spec=gspec(' bp >= 1,', ENS['expr_bp'][0]),
+                        # C05 associativity: the right operand of a left-associative operator of binding power b is parsed
+                        # with minimum b + 1 (an operator of the same level does not nest to the right), of a right-associative one with b
+                        ghost=[('expr_bp(p, None, Restrictions { prefer_stmt: false }, op_bp);', 'before',
+                                'proof { assert(op_bp == bp_of(op).0 + (if bp_of(op).1 { 0int } else { 1int })); }     //@C05:right-operand-binding-power')]),
         'array_type_spec': dict(spec=gspec(' !want_array_ref_type ==> ' + at('T![array]') + ',', ENS['array_type_spec'][0])),
         'current_op': dict(ret='r', nodecreases=False, props=P5, spec="""
 requires p.wf(),
